@@ -1,15 +1,415 @@
-//! C12 (stub, to be filled in)
-use crate::prng::Rng;
+//! C12 - attractor and steady-state shortcuts agree with generic evaluation everywhere.
+//!
+//! History explored: formulae containing the two patterns (and near-misses of them) in generated
+//! contexts - under operators, jumps, plain and restricted quantifiers, with arbitrary variable
+//! names - evaluated alone and in batches (orders, entry points, observers, hash seeds).
+//! Oracle: each result equals the *twin* of the formula evaluated with sharing disabled, where the
+//! twin is a logically identical formula no recogniser can match (every quantifier body becomes
+//! `(body | false)`, every variable leaf `({v} & {v})`; neither rewrite changes the raw set of any
+//! sub-formula, in particular neither adds an intersection with the unit set).
+
+use crate::ast::F;
+use crate::c04::{Variant, random_mode, random_obs, run_variants};
+use crate::evalx::{self, Gcv, Mode, ObsKind};
+use crate::exec::{Outcome, isolated};
+use crate::fgen::{self, Gen, GenCfg, Pool, attractor, steady};
+use crate::prng::{Rng, fnv1a};
 use crate::scen::Report;
 use crate::world::World;
 use serde_json::{Value, json};
 
 #[derive(Clone, Debug, PartialEq)]
-pub struct C12 {}
-impl C12 {
-    pub fn to_json(&self) -> Value { json!({}) }
-    pub fn from_json(_v: &Value) -> Result<C12, String> { Ok(C12 {}) }
+pub struct C12 {
+    pub batch: Vec<F>,
+    pub ref_hash_seed: u64,
+    pub alone_hash_seed: u64,
+    pub variants: Vec<Variant>,
 }
-pub fn generate(_rng: &Rng, _world: &World) -> C12 { C12 {} }
-pub fn check(_world: &World, _sc: &C12) -> Report { Report::default() }
-pub fn shrinks(_sc: &C12) -> Vec<C12> { Vec::new() }
+
+impl C12 {
+    pub fn to_json(&self) -> Value {
+        json!({
+            "batch": self.batch.iter().map(|f| f.to_json()).collect::<Vec<_>>(),
+            "batch_text": self.batch.iter().map(|f| f.render()).collect::<Vec<_>>(),
+            "twin_text": self.batch.iter().map(|f| twin(f).render()).collect::<Vec<_>>(),
+            "ref_hash_seed": self.ref_hash_seed,
+            "alone_hash_seed": self.alone_hash_seed,
+            "variants": self.variants.iter().map(|v| json!({
+                "order": v.order, "mode": v.mode.name(), "observer": v.obs.to_json(), "hash_seed": v.hash_seed
+            })).collect::<Vec<_>>(),
+        })
+    }
+    pub fn from_json(v: &Value) -> Result<C12, String> {
+        let c = crate::c04::C04::from_json(&json!({
+            "batch": v["batch"], "variants": v["variants"],
+            "ref_hash_seed": v["ref_hash_seed"], "nocache_hash_seed": v["alone_hash_seed"],
+        }))?;
+        Ok(C12 { batch: c.batch, ref_hash_seed: c.ref_hash_seed, alone_hash_seed: c.nocache_hash_seed, variants: c.variants })
+    }
+}
+
+/// Logically identical formula that no structural recogniser anchored at a binder or at a
+/// variable leaf can match.
+pub fn twin(f: &F) -> F {
+    match f {
+        F::Var(v) => F::bin("&", F::var(v), F::var(v)),
+        F::Un(op, a) => F::Un(op, Box::new(twin(a))),
+        F::Bin(op, a, b) => F::Bin(op, Box::new(twin(a)), Box::new(twin(b))),
+        F::Hyb(op, v, d, a) => {
+            if *op == "@" {
+                F::Hyb(op, v.clone(), d.clone(), Box::new(twin(a)))
+            } else {
+                F::Hyb(op, v.clone(), d.clone(), Box::new(F::bin("|", twin(a), F::Const(false))))
+            }
+        }
+        other => other.clone(),
+    }
+}
+
+/// Does the formula contain one of the two patterns exactly (as the recognisers define them)?
+pub fn count_patterns(f: &F) -> (usize, usize) {
+    let mut a = 0;
+    let mut s = 0;
+    for p in f.paths() {
+        if let F::Hyb("!", v, None, body) = f.at(&p) {
+            match &**body {
+                F::Un("AG", x) => {
+                    if let F::Un("EF", y) = &**x {
+                        if **y == F::Var(v.clone()) {
+                            a += 1;
+                        }
+                    }
+                }
+                F::Un("AX", y) => {
+                    if **y == F::Var(v.clone()) {
+                        s += 1;
+                    }
+                }
+                _ => {}
+            }
+        }
+    }
+    (a, s)
+}
+
+/// Near-misses: formulae that merely resemble the patterns. `outer` is a variable bound outside
+/// (if any), `dom` a domain label (if any).
+fn near_miss(rng: &mut Rng, v: &str, outer: Option<&str>, dom: Option<&str>) -> F {
+    let x = || F::var(v);
+    let mut opts: Vec<F> = vec![
+        F::hyb("3", v, None, F::un("AG", F::un("EF", x()))),
+        F::hyb("V", v, None, F::un("AX", x())),
+        F::hyb("3", v, None, F::un("AX", x())),
+        F::hyb("!", v, None, F::un("AG", F::un("EF", F::un("AX", x())))),
+        F::hyb("!", v, None, F::un("AG", F::un("EF", F::un("~", x())))),
+        F::hyb("!", v, None, F::un("AX", F::un("~", x()))),
+        F::hyb("!", v, None, F::un("EX", x())),
+        F::hyb("!", v, None, F::un("EF", F::un("AG", x()))),
+        F::hyb("!", v, None, F::un("AG", F::un("AF", x()))),
+        F::hyb("!", v, None, F::un("AX", F::un("AX", x()))),
+        F::hyb("!", v, None, F::un("AG", x())),
+        F::hyb("!", v, None, F::un("EF", x())),
+        F::hyb("!", v, None, F::un("EG", F::un("EF", x()))),
+        F::hyb("!", v, None, F::un("AG", F::un("EX", x()))),
+        F::hyb("!", v, None, F::un("~", F::un("AX", x()))),
+        F::hyb("!", v, None, F::bin("&", F::un("AX", x()), F::Const(true))),
+    ];
+    if let Some(o) = outer {
+        opts.push(F::hyb("!", v, None, F::un("AG", F::un("EF", F::var(o)))));
+        opts.push(F::hyb("!", v, None, F::un("AX", F::var(o))));
+        opts.push(F::hyb("!", v, None, F::un("AG", F::un("EF", F::bin("&", x(), F::var(o))))));
+    }
+    if let Some(d) = dom {
+        opts.push(F::hyb("!", v, Some(d), F::un("AG", F::un("EF", x()))));
+        opts.push(F::hyb("!", v, Some(d), F::un("AX", x())));
+    }
+    rng.pick(&opts).clone()
+}
+
+fn fresh(rng: &mut Rng, used: &[String]) -> String {
+    loop {
+        let n = *rng.pick(&fgen::NAME_POOL);
+        if !used.iter().any(|u| u == n) {
+            return n.to_string();
+        }
+    }
+}
+
+/// A pattern (or near-miss) placed in a generated context.
+fn placed(rng: &mut Rng, world: &World, cfg: &GenCfg, g: &Gen, depth_left: usize, scope: &mut Vec<String>) -> F {
+    let labels: Vec<String> = world.context.keys().cloned().collect();
+    let dom = if labels.is_empty() { None } else { Some(rng.pick(&labels).clone()) };
+    if depth_left == 0 || (scope.len() + 1 >= cfg.max_depth.max(1)) || rng.chance(1, 4) {
+        // the core
+        let v = fresh(rng, scope);
+        let outer = if scope.is_empty() { None } else { Some(rng.pick(scope).clone()) };
+        return match rng.weighted(&[4, 4, 4]) {
+            0 => attractor(&v),
+            1 => steady(&v),
+            _ => near_miss(rng, &v, outer.as_deref(), dom.as_deref()),
+        };
+    }
+    let props = &cfg.props;
+    let c = rng.weighted(&[3, 4, 5, 2]);
+    match c {
+        0 => {
+            let op = *rng.pick(&["~", "EX", "AX", "EF", "AG", "AF", "EG"]);
+            F::un(op, placed(rng, world, cfg, g, depth_left - 1, scope))
+        }
+        1 => {
+            let op = *rng.pick(&["&", "|", "^", "=>", "<=>", "EU", "AW"]);
+            let inner = placed(rng, world, cfg, g, depth_left - 1, scope);
+            // the sibling shares the pattern's sub-formulae so that the cache is involved
+            let sib = if scope.is_empty() || rng.chance(1, 2) {
+                match rng.below(4) {
+                    0 => F::prop(rng.pick(props)),
+                    1 => F::un("AX", F::prop(rng.pick(props))),
+                    2 => {
+                        let v = fresh(rng, scope);
+                        if rng.chance(1, 2) { attractor(&v) } else { steady(&v) }
+                    }
+                    _ => {
+                        let mut sc2 = scope.clone();
+                        let mut r2 = rng.fork("sib");
+                        let f = g.formula(&mut r2);
+                        // g.formula is closed; rename clashes away
+                        let mut names = std::collections::BTreeSet::new();
+                        f.all_var_names(&mut names);
+                        let mut f2 = f;
+                        for nm in names {
+                            if sc2.contains(&nm) {
+                                let fr = fresh(rng, &sc2);
+                                sc2.push(fr.clone());
+                                f2 = f2.rename_var(&nm, &fr);
+                            }
+                        }
+                        if f2.well_scoped() { f2 } else { F::Const(true) }
+                    }
+                }
+            } else {
+                let y = rng.pick(scope).clone();
+                match rng.below(4) {
+                    0 => F::un("AG", F::un("EF", F::var(&y))),
+                    1 => F::un("EF", F::var(&y)),
+                    2 => F::un("AX", F::var(&y)),
+                    _ => F::var(&y),
+                }
+            };
+            if rng.chance(1, 2) { F::bin(op, inner, sib) } else { F::bin(op, sib, inner) }
+        }
+        2 => {
+            let y = fresh(rng, scope);
+            let op = *rng.pick(&["!", "3", "3", "V"]);
+            let d = if rng.chance(1, 2) { dom.clone() } else { None };
+            scope.push(y.clone());
+            let inner = placed(rng, world, cfg, g, depth_left - 1, scope);
+            scope.pop();
+            let body = match rng.below(3) {
+                0 => inner,
+                1 => F::hyb("@", &y, None, inner),
+                _ => F::hyb("@", &y, None, F::bin("&", inner, F::un(*rng.pick(&["AX", "EF", "EX"]), F::var(&y)))),
+            };
+            F::hyb(op, &y, d.as_deref(), body)
+        }
+        _ => {
+            if scope.is_empty() {
+                placed(rng, world, cfg, g, depth_left - 1, scope)
+            } else {
+                let y = rng.pick(scope).clone();
+                F::hyb("@", &y, None, placed(rng, world, cfg, g, depth_left - 1, scope))
+            }
+        }
+    }
+}
+
+pub fn generate(rng: &Rng, world: &World) -> C12 {
+    let mut r = rng.fork("c12.script");
+    let mut cfg = crate::c04::gen_cfg(world, &mut r);
+    cfg.pattern_weight = 6;
+    cfg.max_size = r.range(5, 14);
+    let plain_batch = r.chance(1, 4) || cfg.labels.is_empty();
+    let world_for_gen = if plain_batch {
+        cfg.labels.clear();
+        cfg.allow_wild = false;
+        let mut w = world.clone();
+        w.context.clear();
+        w
+    } else {
+        world.clone()
+    };
+    let pool = Pool::generate(&mut r, &cfg);
+    let g = Gen { cfg: &cfg, pool: &pool };
+    let n = r.weighted(&[0, 4, 4, 3, 2]);
+    let mut batch: Vec<F> = Vec::new();
+    while batch.len() < n {
+        let c = if batch.is_empty() { 0 } else { r.weighted(&[6, 2, 1, 2, 1]) };
+        let f = match c {
+            0 => {
+                let depth = r.range(0, 3);
+                let f = placed(&mut r, &world_for_gen, &cfg, &g, depth, &mut Vec::new());
+                if f.is_closed() && f.well_scoped() && f.quant_depth() <= cfg.max_depth.max(1) { f } else { attractor("x") }
+            }
+            1 => {
+                let src = r.pick(&batch).clone();
+                fgen::alpha_rename(&mut r, &src)
+            }
+            2 => {
+                // the twin of an earlier member in the same batch
+                let src = r.pick(&batch).clone();
+                twin(&src)
+            }
+            3 => {
+                // formulae that share the patterns' sub-formulae
+                let v = fresh(&mut r, &[]);
+                let body = match r.below(4) {
+                    0 => F::un("AG", F::un("EF", F::var(&v))),
+                    1 => F::un("EF", F::var(&v)),
+                    2 => F::un("AX", F::var(&v)),
+                    _ => F::bin("&", F::un("AX", F::var(&v)), F::un("AG", F::un("EF", F::var(&v)))),
+                };
+                let op = *r.pick(&["3", "V", "!"]);
+                if op == "!" {
+                    F::hyb("!", &v, None, F::bin("&", body, F::prop(r.pick(&cfg.props))))
+                } else {
+                    F::hyb(op, &v, None, F::hyb("@", &v, None, body))
+                }
+            }
+            _ => g.formula(&mut r),
+        };
+        if f.quant_depth() <= world.k as usize {
+            batch.push(f);
+        } else {
+            batch.push(steady("x"));
+        }
+    }
+    let plain = batch.iter().all(|f| f.is_plain());
+    let mut hs = rng.fork("c12.hash");
+    let mut variants = Vec::new();
+    variants.push(Variant { order: (0..n).collect(), mode: random_mode(&mut r, plain), obs: ObsKind::Record, hash_seed: hs.next_u64() });
+    let mut perm: Vec<usize> = (0..n).collect();
+    r.shuffle(&mut perm);
+    variants.push(Variant { order: perm, mode: random_mode(&mut r, plain), obs: random_obs(&mut r, world), hash_seed: hs.next_u64() });
+    let mut rep: Vec<usize> = (0..n).collect();
+    let pos = r.below(rep.len() + 1);
+    rep.insert(pos, r.below(n));
+    variants.push(Variant { order: rep, mode: random_mode(&mut r, plain), obs: random_obs(&mut r, world), hash_seed: hs.next_u64() });
+    C12 { batch, ref_hash_seed: hs.next_u64(), alone_hash_seed: hs.next_u64(), variants }
+}
+
+pub fn check(world: &World, sc: &C12) -> Report {
+    let mut rep = Report::default();
+    let env = match world.build() {
+        Ok(e) => e,
+        Err(e) => {
+            rep.skipped = Some(format!("world does not build: {e}"));
+            return rep;
+        }
+    };
+    // reference: the twin, evaluated generically with sharing disabled
+    let mut refs: Vec<Gcv> = Vec::new();
+    let mut npat = (0usize, 0usize);
+    for (i, f) in sc.batch.iter().enumerate() {
+        let t = twin(f);
+        let (a, s) = count_patterns(f);
+        npat.0 += a;
+        npat.1 += s;
+        let r = isolated(sc.ref_hash_seed.wrapping_add(i as u64), || evalx::nocache(&env, &t));
+        rep.event(format!("twin {i} {}", r.ok().map(evalx::set_sig).unwrap_or(r.describe())));
+        match r {
+            Outcome::Ok(s) => refs.push(s),
+            other => {
+                rep.skipped = Some(format!("generic evaluation of twin {i} failed: {}", other.describe()));
+                return rep;
+            }
+        }
+    }
+    rep.probe("batches", 1);
+    rep.probe("formulae", sc.batch.len() as u64);
+    rep.probe("attractor_pattern_sites", npat.0 as u64);
+    rep.probe("steady_pattern_sites", npat.1 as u64);
+    rep.probe("formulae_with_near_miss_only", sc.batch.iter().filter(|f| count_patterns(f) == (0, 0)).count() as u64);
+    rep.probe(
+        "pattern_inside_restricted_scope",
+        sc.batch
+            .iter()
+            .map(|f| {
+                f.paths()
+                    .iter()
+                    .filter(|p| {
+                        let sub = f.at(p);
+                        let (a, s) = count_patterns(sub);
+                        matches!(sub, F::Hyb("!", _, None, _)) && a + s >= 1 && f.scope_at(p).iter().any(|(_, d)| d.is_some())
+                    })
+                    .count() as u64
+            })
+            .sum(),
+    );
+    // alone: the formula itself (shortcuts active) with and without sharing
+    for (i, f) in sc.batch.iter().enumerate() {
+        let has_pattern = count_patterns(f) != (0, 0);
+        let oracle = if has_pattern { "pattern_vs_twin" } else { "near_miss_vs_twin" };
+        for (tag, which) in [("nocache", 0), ("alone", 1)] {
+            let r = isolated(sc.alone_hash_seed.wrapping_add(2 * i as u64 + which), || {
+                if which == 0 { evalx::nocache(&env, f) } else { evalx::alone(&env, f) }
+            });
+            rep.event(format!("{tag} {i} {}", r.ok().map(evalx::set_sig).unwrap_or(r.describe())));
+            match r {
+                Outcome::Ok(s) => {
+                    if !evalx::same_set(&s, &refs[i]) {
+                        rep.violate(
+                            oracle,
+                            format!(
+                                "formula {i} `{}` ({tag}): {} (formula vs generic evaluation of its twin `{}`)",
+                                f.render(),
+                                evalx::describe_diff(&env, &s, &refs[i]),
+                                twin(f).render()
+                            ),
+                        );
+                    }
+                }
+                other => {
+                    rep.violate(oracle, format!("formula {i} `{}` ({tag}): twin evaluates, formula {}", f.render(), other.describe()));
+                }
+            }
+        }
+    }
+    run_variants(
+        &env,
+        &sc.batch,
+        &refs,
+        &sc.variants,
+        &mut rep,
+        ["batch_pattern_vs_twin", "permuted_batch_pattern_vs_twin", "repeated_batch_pattern_vs_twin"],
+        "generic evaluation of the twin",
+    );
+    let mut sig = 0u64;
+    for f in &sc.batch {
+        sig ^= fnv1a(f.render().as_bytes()).rotate_left(3);
+    }
+    for v in &sc.variants {
+        sig ^= fnv1a(format!("{:?}{}", v.order, v.mode.name()).as_bytes()).rotate_left(9);
+    }
+    rep.signature = Some(sig);
+    rep
+}
+
+pub fn shrinks(sc: &C12) -> Vec<C12> {
+    let as04 = crate::c04::C04 {
+        batch: sc.batch.clone(),
+        ref_hash_seed: sc.ref_hash_seed,
+        nocache_hash_seed: sc.alone_hash_seed,
+        variants: sc.variants.clone(),
+    };
+    let mut out: Vec<C12> = crate::c04::shrinks(&as04)
+        .into_iter()
+        .map(|c| C12 { batch: c.batch, ref_hash_seed: c.ref_hash_seed, alone_hash_seed: c.nocache_hash_seed, variants: c.variants })
+        .collect();
+    // no variants at all (alone-only violation)
+    if !sc.variants.is_empty() {
+        let mut s = sc.clone();
+        s.variants.clear();
+        out.insert(0, s);
+    }
+    let _ = Mode::ExtDirty;
+    out
+}
